@@ -294,6 +294,84 @@ def e2e_job(job):
     return acc
 
 
+def run_write_then_read(acc: Acc, case):
+    """A legitimate write (small values, so that value == register count of a later read is possible), then read-only calls on
+    the same object: during the reads nothing but reads may be transmitted."""
+    from goodwe.exceptions import InverterError
+    acc.case()
+    cfg = dict(case["cfg"])
+    fam = cfg["family"]
+    inv, sim = siminv.build_direct(cfg, default=0x0101)
+    run_sync(inv.read_device_info())
+    acc.nontrivial("WR", fam, cfg["serial"], case["op"], repr(case.get("args")))
+    try:
+        op = case["op"]
+        if op == "write_setting":
+            run_sync(inv.write_setting(case["args"][0], case["args"][1]))
+        elif op == "set_grid_export_limit":
+            run_sync(inv.set_grid_export_limit(case["args"][0]))
+        elif op == "set_ongrid_battery_dod":
+            run_sync(inv.set_ongrid_battery_dod(case["args"][0]))
+        elif op == "set_operation_mode":
+            run_sync(inv.set_operation_mode(case["args"][0]))
+    except Exception:
+        pass
+    fails = []
+    for name, arg in case["reads"]:
+        if fam == "DT" and name in ("get_operation_mode", "get_ongrid_battery_dod"):
+            continue
+        w0 = write_count(sim)
+        try:
+            run_sync(do_read_call(inv, name, arg) if not isinstance(arg, str) else inv.read_setting(arg))
+        except (InverterError, ValueError, TypeError, NotImplementedError, KeyError):
+            pass
+        if write_count(sim) != w0:
+            fails.append(("C18|%s|read-call-wrote|after-write" % fam,
+                          "%s(%r) after %s%r transmitted a write: %s" % (name, arg, case["op"], tuple(case["args"]), writes_of(sim)[w0:][:2]), case))
+            break
+    return fails
+
+
+def write_then_read_job(job):
+    part, parts = job
+    acc = Acc()
+    from vlib import refsensor as rs
+    cfgs = [{"family": "ET", "serial": b"9010KETU000W0000", "rated_power": 10000, "refuse": [], "battery_mode": 1, "tcp": False},
+            {"family": "ET", "serial": b"9010KETT000W0000", "rated_power": 10000, "refuse": ["eco_v2", "peak_shaving"], "battery_mode": 1, "tcp": True},
+            {"family": "DT", "serial": b"9010KDTU000W0000", "refuse": [], "tcp": False},
+            {"family": "DT", "serial": b"9010KDSN000W0000", "refuse": [], "tcp": True},
+            {"family": "ES", "serial": b"95048ESU000W0000", "firmware": b"2214E"},
+            {"family": "ES", "serial": b"95048ESU000W0000", "firmware": b"02041"}]
+    generic_reads = [("read_settings_data", 0), ("get_grid_export_limit", 0), ("get_operation_mode", 0), ("get_ongrid_battery_dod", 0),
+                     ("read_runtime_data", 0)]
+    i = 0
+    for cfg in cfgs:
+        inv, _ = siminv.build_direct(dict(cfg), default=0)
+        run_sync(inv.read_device_info())
+        ops = []
+        for s in inv.settings():
+            if rs.type_name(s) in ("Integer", "IntegerS", "Long", "LongS", "ByteH", "ByteL") and not (cfg["family"] == "ES" and s.offset <= 255):
+                for v in (1, 2, 3, 6):
+                    ops.append(("write_setting", [s.id_, v], [("read_setting", s.id_)]))
+        for v in (1, 2, 6, 125):
+            ops.append(("set_grid_export_limit", [v], []))
+        if cfg["family"] != "DT":
+            for d in (99, 98, 94, 0):
+                ops.append(("set_ongrid_battery_dod", [d], []))
+            for m in (0, 1, 2, 3):
+                ops.append(("set_operation_mode", [m], []))
+        for op, args, reads in ops:
+            i += 1
+            if i % parts != part:
+                continue
+            case = {"cfg": cfg, "op": op, "args": args, "reads": reads + generic_reads}
+            for key, msg, c in run_write_then_read(acc, case):
+                acc.fail(key, msg, c)
+            if len(acc.samples) < 1:
+                acc.sample(case)
+    return acc
+
+
 def _apply(acc, case, fn):
     for key, msg, c in fn(acc, case):
         acc.fail(key, msg, c)
@@ -419,13 +497,16 @@ def hyp_job(job):
 def run(ctx):
     ctx.shard(read_grid_job, [(p, 16, ctx.quick) for p in range(16)], "read-only API x configurations (every call; ids swept), connect/discover end-to-end")
     ctx.shard(setter_job, [(f, ctx.quick) for f in ("ET", "DT", "ES")], "setters: integer ranges around the valid intervals + in-range control calls")
+    ctx.shard(write_then_read_job, [(p, 16) for p in range(16)], "a legitimate write of a small value to every integer setting / via every setter, then read-only calls on the same object")
     ctx.shard(e2e_job, [(p, 16) for p in range(16)], "end-to-end histories: valid setter, then each read-only call over each network fault (retries / reconnects), raw frames classified at the peer")
     n = ctx.pick(2400, 50000)
     ctx.shard(hyp_job, [(ctx.seed * 1000 + i, n // 16) for i in range(16)], "hypothesis call sequences / setter arguments")
 
 
 def replay(ctx, case):
-    if "fault" in case:
+    if "reads" in case:
+        _apply(ctx.acc, case, run_write_then_read)
+    elif "fault" in case:
         _apply(ctx.acc, case, run_e2e_history)
     elif "setter" in case:
         _apply(ctx.acc, case, run_setter_case)
